@@ -200,8 +200,10 @@ def harnesses(tier):
         return [{'name': 'forward-quick', 'fn': h, 'cfg': {'profiles': QUICK_F, 'n': 0}},
                 {'name': 'backward-quick', 'fn': h, 'cfg': {'profiles': QUICK_B, 'n': 0, 'backward': True}}]
     out = []
-    for k, v in sched.FWD_THOROUGH_PROFILES.items():
-        out.append({'name': 'forward-' + k, 'fn': h, 'cfg': dict(v, two_clocks=[1], scenarios=[(0, -1), (4, 0)])})
-    for k, v in sched.BWD_THOROUGH_PROFILES.items():
-        out.append({'name': 'backward-' + k, 'fn': h, 'cfg': dict(v, backward=True)})
+    for k in ('n3-features', 'n3-dates', 'n3-none-values', 'n3-all-links', 'n4-links'):
+        out.append({'name': 'forward-' + k, 'fn': h, 'cfg': dict(sched.FWD_THOROUGH_PROFILES[k], two_clocks=[1], scenarios=[(0, -1)])})
+    out.append({'name': 'forward-quick-profiles', 'fn': h, 'cfg': {'profiles': QUICK_F, 'n': 0}})
+    for k in ('n3-features', 'n3-none-values', 'n4-links'):
+        out.append({'name': 'backward-' + k, 'fn': h, 'cfg': dict(sched.BWD_THOROUGH_PROFILES[k], backward=True)})
+    out.append({'name': 'backward-quick-profiles', 'fn': h, 'cfg': {'profiles': QUICK_B, 'n': 0, 'backward': True}})
     return out
